@@ -339,6 +339,9 @@ type absPut struct {
 	Lo   int  `json:"lo"`
 	Size int  `json:"size"`
 	Fill bool `json:"fill"`
+	// Pal > 0: a palindromic distance (byte 0 = byte 31 = Pal): the big- and little-endian readings coincide, so the listed
+	// finding about the store's little-endian decoding (F-C06-1) cannot mask what is observed
+	Pal int `json:"pal"`
 }
 type gatedCase struct {
 	Prefill  []absPut   `json:"prefill"`
@@ -353,6 +356,9 @@ func concPut(node [32]byte, a absPut, salt int) (id, v []byte) {
 	d[0], d[30] = byte(a.Hi), byte(a.Lo)
 	if a.Fill {
 		d[31] = 1 // nearer than every abstract distance in the big-endian (pruning) order
+	}
+	if a.Pal > 0 {
+		d[0], d[30], d[31] = byte(a.Pal), 0, byte(a.Pal)
 	}
 	id = make([]byte, 32)
 	for i := range id {
@@ -369,7 +375,35 @@ func concPut(node [32]byte, a absPut, salt int) (id, v []byte) {
 	return
 }
 
+// builtinGated: schedules that are not TLC counterexamples of the lock-free design but of ONE lock moved (the radius check
+// before the put lock). Process 0 puts a mid-distance item that will cross the capacity and is parked at the gate after its
+// own check (it holds the put lock there); process 1, with a far item, is then let through the gate in front of the check
+// (code >= 100: wait for a process to arrive at its gate, do not release it): with the lock around the check it never gets
+// that far and the two puts run one after the other; without it, it checks against the old radius, queues on the lock, and
+// commits after process 0's prune has lowered the radius.
+func builtinGated() []gatedCase {
+	var out []gatedCase
+	for _, far := range []int{9, 200} {
+		for _, mid := range []int{5, 100} {
+			if mid >= far {
+				continue
+			}
+			out = append(out, gatedCase{Prefill: []absPut{{Pal: 1, Size: 18}}, Procs: [][]absPut{{{Pal: mid, Size: 3}}, {{Pal: far, Size: 1}}},
+				Schedule: []int{100, 0, 101, 1, 0, 0, 0, 0, 0, 0, 0, 0, 0}})
+		}
+	}
+	return out
+}
+
 func runGated(w *tracelog.Writer, in string, seed int64) error {
+	if in == "builtin" {
+		for t, c := range builtinGated() {
+			if err := runOneGated(w, t, seed+int64(t), c); err != nil {
+				return err
+			}
+		}
+		return nil
+	}
 	f, err := os.Open(in)
 	if err != nil {
 		return err
@@ -430,6 +464,7 @@ func runOneGated(w *tracelog.Writer, t int, seed int64, c gatedCase) error {
 		release chan struct{} // permission to pass the gate
 	}
 	procs := make([]*proc, len(c.Procs))
+	cur := make([]item, len(c.Procs)) // the (last) item each process puts: distance and length, for the step events
 	byGoid := sync.Map{}
 	gateExtra.Store(func(point string) {
 		if point == "compact.done" {
@@ -451,7 +486,11 @@ func runOneGated(w *tracelog.Writer, t int, seed int64, c gatedCase) error {
 			id, v := concPut(e.node, a, 100*(i+1)+j)
 			note(id, v)
 		}
+		cur[i] = issued[len(issued)-1]
 		wg.Add(1)
+		if i > 0 {
+			time.Sleep(20 * time.Millisecond) // processes start in order (process 0 gets to its first gate first)
+		}
 		go func(i int) {
 			defer wg.Done()
 			byGoid.Store(common.Goid(), pr)
@@ -480,13 +519,17 @@ func runOneGated(w *tracelog.Writer, t int, seed int64, c gatedCase) error {
 		if at[i] == "done" || at[i] == "" {
 			return false
 		}
-		w.Emit(map[string]any{"ev": "g.step", "t": t, "p": i, "point": at[i]})
+		w.Emit(map[string]any{"ev": "g.step", "t": t, "p": i, "point": at[i], "radius": radiusBytes(e.cs), "d": cur[i].K, "len": cur[i].Len, "judge": len(c.Procs[i]) == 1})
 		at[i] = ""
 		procs[i].release <- struct{}{}
 		poll(i, 50*time.Millisecond) // a process that now blocks on a lock is picked up later
 		return true
 	}
 	for _, i := range c.Schedule {
+		if i >= 100 && i-100 < len(procs) {
+			poll(i-100, 500*time.Millisecond) // wait for the process to arrive at its gate, leave it there
+			continue
+		}
 		if i >= 0 && i < len(procs) {
 			step(i)
 		}
